@@ -42,6 +42,12 @@ let rec expr (h : t) (env : int list) (lvl : int) (e : expr) : unit =
   | EWhile (c, b) -> add h "EWhile" 1; go c; go b
   | EDoWhile (b, c) -> add h "EDoWhile" 1; go b; go c
   | EFor (i, c, s, b) -> add h "EFor" 1; go i; go c; go s; go b
+  | EForInRange (x, a, b, body) ->
+    add h "EForIn" 1; add h "EForInRange" 1; go a; go b;
+    binder h env (int_of_n x) "forin"; expr h (int_of_n x :: env) lvl body
+  | EForInArr (x, a, body) ->
+    add h "EForIn" 1; add h "EForInArr" 1; go a;
+    binder h env (int_of_n x) "forin"; expr h (int_of_n x :: env) lvl body
   | ELambda fd -> add h "ELambda" 1; fdef h env lvl ~kind:"lambda" fd
   | EArrLit (es, _) -> add h "EArrLit" 1; List.iter go es
   | EIndex (a, i) -> add h "EIndex" 1; go a; go i
